@@ -6,20 +6,22 @@ Model: BHS/Model/Http.lean — per handler a decision function from abstract inp
 the state (header store through BHS/Model/Query.lean, webhook table) to `Response = {status, bodies}`.
 HTTP parsing, gin (routing, Recovery, ResponseWriter) and encoding/json binding are TRUSTED inputs of the model.
 
-The model carries one switch per defect of the unchanged code (`Fixes`; `codeToday` = all off, `allFixed` = all on).
-Every theorem is proved for an ARBITRARY setting of the switches:
+The model carries one switch per defect this check found (`Fixes`): `codeBefore` = the code as first checked (all off),
+`codeToday` = switches 1–6 on (repaired in /repo by the `fix:` commits 8c36075 397583f 15c8125 64394b6 0f9264d
+689736e), 7–9 off (known findings: empty /status answer, gin's plain 404, gin's trailing-slash redirect),
+`allFixed` = all on. Every theorem is proved for an ARBITRARY setting of the switches:
 
   * `C16_…_iff`      the property holds for a request  ⇔  the request is outside an explicit decidable set
                      (`bad5xx` / `badBody` / `badStruct`) — so the excluded inputs are EXACTLY the failing ones;
-  * `C16_…_partial`  the statement for `codeToday` with that exclusion as hypothesis;
-  * `C16_…_fixed`    the FULL statement, no exclusion, for `allFixed` (the suggested patches suffice);
-  * `C16_…_counterexample_*`  the negation at a concrete witness for `codeToday` (one per defect).
+  * for `codeToday`: `C16_no_5xx` and `C16_rejected_write` are now FULL statements (no exclusion);
+                     `C16_single_json_partial` excludes exactly `status`, `noRoute`, `redirectSlash`;
+                     `C16_client_errors_structured_partial` excludes exactly `noRoute`;
+                     each exclusion has a `…_counterexample_*` (negation at a concrete witness);
+  * `C16_…_fixed`    the full statements for `allFixed`.
 
-FULL statements (false for the code today, see the counterexamples):
-  C16_no_5xx                    ∀ env healthy, ∀ a r,  200 ≤ (respond codeToday env a r).status < 500
+FULL statements still false for the code today (see the counterexamples):
   C16_single_json               ∀ env healthy, ∀ a r,  (respond codeToday env a r).bodies = [b] with b a JSON document
   C16_client_errors_structured  ∀ env healthy, ∀ a r,  status 4xx → bodies = [errorDoc code message], code ≠ "" ≠ message
-  C16_rejected_write            ∀ env a r, status ≥ 400 → the webhook table is unchanged
 -/
 import BHS.Proofs.Http
 import BHS.Proofs.ChainBasic
@@ -67,7 +69,7 @@ def usedErrors : List Gen.ErrDef :=
    Gen.errMerklerootNotFound, Gen.errMerklerootNotInLongestChain, Gen.errInvalidBatchSize, Gen.errGetChainTipHeight,
    Gen.errVerifyMerklerootsBadBody, Gen.errAncestorHashHigher, Gen.errAncestorNotFound, Gen.errHeadersNotPartOfTheSameChain,
    Gen.errHeaderWithGivenHashes, Gen.errHeaderNotFound, Gen.errURLBodyRequired, Gen.errURLParamRequired,
-   Gen.errWebhookNotFound, Gen.errRefreshWebhook]
+   Gen.errWebhookNotFound, Gen.errRefreshWebhook, Gen.errInvalidHeight, Gen.errCommonAncestorEmptyList, Gen.errTokenNotFound]
 
 /-- they all come from the table and none of them is the 500 one -/
 theorem C16_used_errors_mapped : ∀ e ∈ usedErrors, e ∈ Gen.errorTable ∧ e ≠ Gen.errGeneric := by decide
@@ -469,23 +471,41 @@ theorem C16_client_errors_structured_iff (fx : Fixes) (env : Env) (a : AuthIn) (
       simp [hc, hm] at this
     · cases this
 
-/-! #### the code today: partial statements (explicit exclusions) -/
+/-! #### the code today -/
 
-theorem C16_no_5xx_partial (env : Env) (a : AuthIn) (r : Req) (hs : Healthy env.store)
-    (hex : bad5xx codeToday env a r = false) :
-    200 ≤ (respond codeToday env a r).status ∧ (respond codeToday env a r).status < 500 :=
-  (C16_no_5xx_iff codeToday env a r hs).2 hex
+/-- FULL statement (since the fixes 8c36075, 397583f, 15c8125): no request earns a 5xx -/
+theorem C16_no_5xx (env : Env) (a : AuthIn) (r : Req) (hs : Healthy env.store) :
+    200 ≤ (respond codeToday env a r).status ∧ (respond codeToday env a r).status < 500 := by
+  apply (C16_no_5xx_iff codeToday env a r hs).2
+  cases r <;> simp [bad5xx, codeToday]
+  rename_i b; cases b <;> simp [caBad]
 
+/-- exactly one JSON document — except GET /status (empty), unmatched requests (gin's text/plain 404) and
+    trailing-slash redirects (HTML / empty): the three remaining known findings -/
 theorem C16_single_json_partial (env : Env) (a : AuthIn) (r : Req) (hs : Healthy env.store)
-    (hex : badBody codeToday env a r = false) :
-    ∃ b, (respond codeToday env a r).bodies = [b] ∧ b.isJson = true :=
-  (C16_single_json_iff codeToday env a r hs).2 hex
+    (h1 : r ≠ .status) (h2 : r ≠ .noRoute) (h3 : ∀ g, r ≠ .redirectSlash g) :
+    ∃ b, (respond codeToday env a r).bodies = [b] ∧ b.isJson = true := by
+  apply (C16_single_json_iff codeToday env a r hs).2
+  cases r <;> simp [badBody, codeToday] <;> try contradiction
+  · rename_i b; cases b <;> simp [caBad]
+  · exact absurd rfl (h3 _)
 
+/-- the exclusion is exact: those three kinds of request always fail the clause -/
+theorem C16_single_json_excluded_fail (env : Env) (a : AuthIn) (r : Req) (hs : Healthy env.store)
+    (h : r = .status ∨ r = .noRoute ∨ ∃ g, r = .redirectSlash g) :
+    ¬ ∃ b, (respond codeToday env a r).bodies = [b] ∧ b.isJson = true := by
+  intro hj
+  have := (C16_single_json_iff codeToday env a r hs).1 hj
+  rcases h with rfl | rfl | ⟨g, rfl⟩ <;> simp [badBody, codeToday, passes, Req.isApi] at this
+
+/-- a 4xx carries one {code, message} document — except for unmatched requests (gin's text/plain 404) -/
 theorem C16_client_errors_structured_partial (env : Env) (a : AuthIn) (r : Req) (hs : Healthy env.store)
-    (hex : badStruct codeToday env a r = false)
+    (h2 : r ≠ .noRoute)
     (h4 : 400 ≤ (respond codeToday env a r).status ∧ (respond codeToday env a r).status < 500) :
-    ∃ c m, (respond codeToday env a r).bodies = [.errorDoc c m] ∧ c ≠ "" ∧ m ≠ "" :=
-  (C16_client_errors_structured_iff codeToday env a r hs).2 hex h4
+    ∃ c m, (respond codeToday env a r).bodies = [.errorDoc c m] ∧ c ≠ "" ∧ m ≠ "" := by
+  refine (C16_client_errors_structured_iff codeToday env a r hs).2 ?_ h4
+  cases r <;> simp [badStruct, codeToday] <;> try contradiction
+  rename_i b; cases b <;> simp
 
 /-! #### with every suggested patch applied: the full statements -/
 
@@ -542,8 +562,8 @@ theorem step_cases (fx : Fixes) (env : Env) (a : AuthIn) (r : Req) :
     · exact Or.inr rfl
   · exact Or.inr rfl
 
-/-- a rejected write changes nothing — FULL statement: `status ≥ 400 → (step …).2 = env`; false today for
-    POST /webhook with an unbindable body that still carried a `url` (see the counterexample) -/
+/-- a rejected write changes nothing, for every switch setting: with switch 4 off, POST /webhook with an unbindable
+    body that still carried a `url` is the one exception (it created the webhook) -/
 theorem C16_rejected_write_partial (fx : Fixes) (env : Env) (a : AuthIn) (r : Req)
     (hex : ∀ u, r = .webhookRegister true u → fx.webhookReturnsAfterBindError = true)
     (h4 : 400 ≤ (step fx env a r).1.status) : (step fx env a r).2 = env := by
@@ -579,7 +599,12 @@ theorem C16_rejected_write_partial (fx : Fixes) (env : Env) (a : AuthIn) (r : Re
         | some k => simp [hf] at h4
     | _ => rfl
 
-/-! ### counterexamples: the code today at concrete witnesses (one per defect; delete the one whose switch is flipped) -/
+/-- FULL statement (since the fix 64394b6): a request answered with an error leaves the whole state unchanged -/
+theorem C16_rejected_write (env : Env) (a : AuthIn) (r : Req) (h4 : 400 ≤ (step codeToday env a r).1.status) :
+    (step codeToday env a r).2 = env :=
+  C16_rejected_write_partial codeToday env a r (fun _ _ => rfl) h4
+
+/-! ### counterexamples: the code today at concrete witnesses (one per remaining known finding) -/
 
 /-- a store with the genesis header and one child -/
 def exStore : Store String :=
@@ -590,41 +615,6 @@ def exStore : Store String :=
 def exEnv : Env := { store := exStore, excess := 6, hooks := [] }
 
 theorem exStore_healthy : Healthy exStore := ⟨_, List.mem_cons_self, rfl⟩
-
-/-- GET /chain/header/byHeight without `height` → 500 `error-unknown` -/
-theorem C16_no_5xx_counterexample_byHeight :
-    respond codeToday exEnv .disabled (.byHeight none (some "2")) = ⟨500, [.errorDoc "error-unknown" "Internal server error"]⟩ := by
-  decide
-
-/-- … and with a non-numeric one -/
-theorem C16_no_5xx_counterexample_byHeight_text :
-    (respond codeToday exEnv .disabled (.byHeight (some "abc") none)).status = 500 := by decide
-
-/-- POST /chain/header/commonAncestor `[]` → panic → 500 with an empty body -/
-theorem C16_no_5xx_counterexample_commonAncestor_empty :
-    respond codeToday exEnv .disabled (.commonAncestor (.parsed [])) = ⟨500, []⟩ := by decide
-
-/-- POST /chain/header/commonAncestor with the genesis hash in the list → nil dereference → 500 with an empty body -/
-theorem C16_no_5xx_counterexample_commonAncestor_genesis :
-    respond codeToday exEnv .disabled (.commonAncestor (.parsed ["a", "g"])) = ⟨500, []⟩ := by decide
-
-/-- POST /webhook with an unbindable body → two JSON documents under status 400 -/
-theorem C16_single_json_counterexample_webhook :
-    respond codeToday exEnv .disabled (.webhookRegister true "") =
-      ⟨400, [.errorDoc "ErrBindBody" "error during bind JSON body", .errorDoc "ErrURLBodyRequired" "url is required"]⟩ := by decide
-
-/-- … and when the decoder had already stored `url`, the "rejected" request creates the webhook -/
-theorem C16_rejected_write_counterexample_webhook :
-    (step codeToday exEnv .disabled (.webhookRegister true "http://x")).1 = ⟨400, [.errorDoc "ErrBindBody" "error during bind JSON body", .value]⟩ ∧
-    (step codeToday exEnv .disabled (.webhookRegister true "http://x")).2.hooks = [⟨"http://x", true⟩] := by decide
-
-/-- POST /chain/merkleroot/verify with an unbindable body → 400 with a bare JSON string -/
-theorem C16_client_errors_structured_counterexample_verify :
-    respond codeToday exEnv .disabled (.verify .bindErr) = ⟨400, [.bareString]⟩ := by decide
-
-/-- GET /access with authentication disabled → 400 with an empty body -/
-theorem C16_client_errors_structured_counterexample_access :
-    respond codeToday exEnv .disabled .accessGet = ⟨400, []⟩ := by decide
 
 /-- GET /status → 200 with an empty body (no JSON document) -/
 theorem C16_single_json_counterexample_status : respond codeToday exEnv .disabled .status = ⟨200, []⟩ := by decide
@@ -637,12 +627,36 @@ theorem C16_client_errors_structured_counterexample_noRoute :
 theorem C16_single_json_counterexample_redirect :
     respond codeToday exEnv .admin (.redirectSlash true) = ⟨301, [.nonJson]⟩ := by decide
 
+/-! ### the record of the repaired defects: what the model says with the switches off (`codeBefore`), next to today -/
+
+-- F-1 byHeight without / with a non-integer `height`: was 500 `error-unknown`
+example : respond codeBefore exEnv .disabled (.byHeight none (some "2")) = ⟨500, [.errorDoc "error-unknown" "Internal server error"]⟩ := by decide
+example : respond codeToday exEnv .disabled (.byHeight none (some "2")) = errResp Gen.errInvalidHeight := by decide
+example : respond codeToday exEnv .disabled (.byHeight (some "9223372036854775808") none) = errResp Gen.errInvalidHeight := by decide
+-- F-2 commonAncestor `[]`: was a panic (500, empty body)
+example : respond codeBefore exEnv .disabled (.commonAncestor (.parsed [])) = ⟨500, []⟩ := by decide
+example : respond codeToday exEnv .disabled (.commonAncestor (.parsed [])) = errResp Gen.errCommonAncestorEmptyList := by decide
+-- F-3 commonAncestor with the genesis hash: was a nil dereference (500, empty body)
+example : respond codeBefore exEnv .disabled (.commonAncestor (.parsed ["a", "g"])) = ⟨500, []⟩ := by decide
+example : respond codeToday exEnv .disabled (.commonAncestor (.parsed ["a", "g"])) = errResp Gen.errAncestorNotFound := by decide
+-- F-4 POST /webhook with an unbindable body: was two documents, and a created webhook when `url` had been decoded
+example : respond codeBefore exEnv .disabled (.webhookRegister true "") =
+    ⟨400, [.errorDoc "ErrBindBody" "error during bind JSON body", .errorDoc "ErrURLBodyRequired" "url is required"]⟩ := by decide
+example : (step codeBefore exEnv .disabled (.webhookRegister true "http://x")).2.hooks = [⟨"http://x", true⟩] := by decide
+example : (step codeToday exEnv .disabled (.webhookRegister true "http://x")).1 = errResp Gen.errBindBody ∧
+    (step codeToday exEnv .disabled (.webhookRegister true "http://x")).2.hooks = [] := by decide
+-- F-5 verify with an unbindable body: was a bare JSON string
+example : respond codeBefore exEnv .disabled (.verify .bindErr) = ⟨400, [.bareString]⟩ := by decide
+example : respond codeToday exEnv .disabled (.verify .bindErr) = errResp Gen.errBindBody := by decide
+-- F-6 GET /access with authentication disabled: was 400 with an empty body
+example : respond codeBefore exEnv .disabled .accessGet = ⟨400, []⟩ := by decide
+example : respond codeToday exEnv .disabled .accessGet = errResp Gen.errTokenNotFound := by decide
+
 /-! ### non-vacuity: requests that meet the hypotheses and exercise every kind of answer -/
 
 example : Healthy exEnv.store := exStore_healthy
 example : bad5xx codeToday exEnv .disabled (.byHeight (some "-1") (some "x")) = false := by decide
 example : respond codeToday exEnv .disabled (.byHeight (some "9223372036854775807") (some "5")) = ok200 := by decide
-example : (respond codeToday exEnv .disabled (.byHeight (some "9223372036854775808") none)).status = 500 := by decide
 example : bad5xx codeToday exEnv .disabled (.commonAncestor (.parsed ["a", "b"])) = false := by decide
 example : respond codeToday exEnv .disabled (.commonAncestor (.parsed ["a", "b"])) = ok200 := by decide
 example : respond codeToday exEnv .disabled (.commonAncestor (.parsed ["a", "zz"])) = errResp Gen.errHeaderNotFound := by decide
@@ -658,7 +672,7 @@ example : respond codeToday exEnv .disabled (.verify (.parsed [("ma", 1)])) = ok
 example : respond codeToday exEnv .disabled (.ancestors "a" "b") = errResp Gen.errHeadersNotPartOfTheSameChain := by decide
 example : respond codeToday exEnv .disabled (.webhookRegister false "http://x") = ok200 := by decide
 example : respond codeToday { exEnv with hooks := [⟨"http://x", true⟩] } .disabled (.webhookRegister false "http://x") = errResp Gen.errRefreshWebhook := by decide
-example : respond allFixed exEnv .disabled (.commonAncestor (.parsed [])) = fixedErr 400 "ErrCommonAncestorEmptyList" "at least one header hash is required" := by decide
+example : respond allFixed exEnv .disabled .noRoute = fixedErr 404 "ErrRouteNotFound" "route not found" := by decide
 example : respond allFixed exEnv .disabled (.webhookRegister true "http://x") = errResp Gen.errBindBody := by decide
 
 end BHS.Props.C16
